@@ -177,6 +177,37 @@ void h_sectPrepare_fixed(void)
 	VREACH();
 }
 
+/* stoRecode on a fixed-size block: exactly that block's info byte gets the new code (the block is found through the
+ * real page map macros: the harness lays one prepared section at the start of a heap of FixedSizePgGroup pages) */
+void h_stoRecode_fixed(void)
+{
+	INPUT(Length, q);       /* the block that is recoded */
+	INPUT(Length, g);       /* ghost: any other block */
+	INPUT(unsigned, code);
+	Length k;
+	(void) stoInit();
+	V_FOR_CLASS(k) {
+		Length sz = fixedSize[k], i;
+		Page *pg = (Page *) malloc(FixedSizePgGroup * PgSize);
+		PgInfo *map = (PgInfo *) malloc(FixedSizePgGroup);
+		Section *x; Pointer p, r; QmInfo before_g;
+		ASSUME(pg != 0 && map != 0);
+		x = sectPrepare(pg, FixedSizePgGroup, sz, true);
+		heapStart = (char *) pg; heapEnd = heapStart + FixedSizePgGroup * PgSize;
+		pgMap = map; pgMapSize = FixedSizePgGroup;
+		for (i = 0; i < FixedSizePgGroup; i++) map[i] = i == 0 ? PgBusyFirst : PgBusyFollow;
+		stoIsInit = 1; stoMustTag = true;
+		ASSUME(q < x->qmCount && g < x->qmCount && g != q && code <= QmCodeMask);
+		p = (Pointer) ((char *) x->data + q * sz);
+		before_g = x->info[g];
+		r = stoRecode(p, code);
+		CHECK("stoRecode returns its argument", r == p);
+		CHECK("stoRecode: the block's own info byte carries the new code", QmInfoCode(x->info[q]) == code);
+		CHECK("stoRecode: no other block's info byte changes", x->info[g] == before_g);
+	}
+	VREACH();
+}
+
 /* a mixed section of any admissible number of pages, as pieceGetMixed builds it */
 void h_sectPrepare_mixed(void)
 {
